@@ -1,6 +1,6 @@
 SPECIFICATION Spec
 CONSTANTS MinN = 1  MaxN = 4  NameIdx = {1, 3, 5, 6}  MaxKids = 3  MaxEdges = 4  MaxIso = 0  MaxExtraRoots = 0
-          RootPerm = FALSE  Topo = TRUE  Gen = FALSE
+          RootPerm = FALSE  Topo = TRUE  SkipTaken = TRUE  Gen = FALSE
 VIEW view
 INVARIANT ReachPrefixNamed
 CHECK_DEADLOCK FALSE
